@@ -13,6 +13,10 @@ TOKENS = {
     "i32max": "2147483647", "i32min": "-2147483648", "u64max": "18446744073709551615",
     "u128big": "340282366920938463463374607431768211455", "long": "x" * 10000,
     "nonascii": "é漢", "semi": ";", "newline": "a\nb", "db": "d", "tok": "tok",
+    # very long AND non-ASCII: every byte offset of a long line falls inside a character for one of these
+    "long_e0": "é" * 700, "long_e1": "x" + "é" * 700,
+    "long_h0": "漢" * 500, "long_h1": "x" + "漢" * 500, "long_h2": "xx" + "漢" * 500,
+    "long_4": "😀" * 400,
 }
 PARSER_WORDS = None
 
@@ -131,7 +135,7 @@ def run(tier, seed):
         "evaluations": sum(1 for c in cases for s in c["steps"] if s["op"]["op"] in ("fuzz", "garbage")),
         "distinct_nontrivial": distinct_lines,
         "rule": "MC_Fuzz enumerates (command word incl. unknown/empty) x argument lists of 0..MaxArgs "
-                "tokens from 17 token classes + the word's sub-command keywords; every line is sent "
+                "tokens from 23 token classes (incl. very long non-ASCII tokens at every byte alignment) + the word's sub-command keywords; every line is sent "
                 "from an unauthenticated, a database-token and an administrator session, each followed "
                 "by a probe set/get from another client; plus seeded sequences of 1-4 lines with up to "
                 "5 arguments and random byte strings. Distinct = distinct concrete lines.",
